@@ -19,6 +19,7 @@ mod keys;
 mod oracles;
 mod pkgtool;
 mod spec;
+mod validator;
 mod sweep;
 
 mod c01;
@@ -26,7 +27,12 @@ mod c02;
 mod c03;
 mod c04;
 mod c05;
+mod c06;
+mod c07;
+mod c08;
+mod c09;
 mod c16;
+mod c17;
 mod c13;
 mod c15;
 mod c18;
@@ -110,7 +116,12 @@ fn dispatch(ctx: &Ctx) -> i32 {
         "C03" => c03::run(ctx),
         "C04" => c04::run(ctx),
         "C05" => c05::run(ctx),
+        "C06" => c06::run(ctx),
+        "C07" => c07::run(ctx),
+        "C08" => c08::run(ctx),
+        "C09" => c09::run(ctx),
         "C16" => c16::run(ctx),
+        "C17" => c17::run(ctx),
         "C13" => c13::run(ctx),
         "C15" => c15::run(ctx),
         "C18" => c18::run(ctx),
@@ -130,7 +141,12 @@ fn dispatch_replay(ctx: &Ctx, v: &serde_json::Value) -> i32 {
         "C03" => c03::replay(ctx, v),
         "C04" => c04::replay(ctx, v),
         "C05" => c05::replay(ctx, v),
+        "C06" => c06::replay(ctx, v),
+        "C07" => c07::replay(ctx, v),
+        "C08" => c08::replay(ctx, v),
+        "C09" => c09::replay(ctx, v),
         "C16" => c16::replay(ctx, v),
+        "C17" => c17::replay(ctx, v),
         "C13" => c13::replay(ctx, v),
         "C15" => c15::replay(ctx, v),
         "C18" => c18::replay(ctx, v),
